@@ -9,6 +9,7 @@ import (
 	"context"
 	"encoding/json"
 	"fmt"
+	"math"
 	"reflect"
 	"regexp"
 	"sort"
@@ -136,6 +137,12 @@ var treeLib = lib{
 
 var libs = []lib{vmLib, treeLib}
 
+// typeStr shows a type in source-like form plus its exact structure (Go %#v would print pointers).
+func typeStr(t hs.Type) string {
+	b, _ := json.Marshal(t)
+	return t.Canon() + " " + string(b)
+}
+
 func guard(f func()) (p string) {
 	defer func() {
 		if r := recover(); r != nil {
@@ -199,17 +206,43 @@ func checkEq(c EqCase) *pk.Failure {
 	}
 	for i, v := range vals {
 		if v == nil || !hs.Conforms(v, c.T) {
-			return pk.Failf("eq", "bad-case", "value %s = %s does not conform to %#v", names[i], show(v), c.T)
+			return pk.Failf("eq", "bad-case", "value %s = %s does not conform to %s", names[i], show(v), typeStr(c.T))
 		}
 	}
 	ctx := func() string {
-		s := fmt.Sprintf("type %s (%#v)", c.T.Canon(), c.T)
+		s := fmt.Sprintf("type %s", typeStr(c.T))
 		for i, v := range vals {
 			s += fmt.Sprintf("\n  %s = %s", names[i], show(v))
 		}
 		return s
 	}
+	var fails []*pk.Failure
 	for _, L := range libs {
+		fails = append(fails, checkEqLib(L, vals, names, ctx))
+	}
+	return pick(fails)
+}
+
+// pick returns the first failure that is not attributed to a known finding (so that a known
+// defect on one route does not hide a new one on another), else the first failure.
+func pick(fails []*pk.Failure) *pk.Failure {
+	var first *pk.Failure
+	for _, f := range fails {
+		if f == nil {
+			continue
+		}
+		if pk.MatchKnown(pk.Prop(), f) == "" {
+			return f
+		}
+		if first == nil {
+			first = f
+		}
+	}
+	return first
+}
+
+func checkEqLib(L lib, vals []hs.Value, names []string, ctx func() string) *pk.Failure {
+	{
 		n := len(vals)
 		reps := 1
 		for _, v := range vals {
@@ -673,9 +706,9 @@ func opClass(a Action) string {
 
 func checkClone(c CloneCase) *pk.Failure {
 	if c.V.V == nil || !hs.Conforms(c.V.V, c.T) {
-		return pk.Failf("clone", "bad-case", "value %s does not conform to %#v", show(c.V.V), c.T)
+		return pk.Failf("clone", "bad-case", "value %s does not conform to %s", show(c.V.V), typeStr(c.T))
 	}
-	ctx := fmt.Sprintf("type %s (%#v)\n  v = %s", c.T.Canon(), c.T, show(c.V.V))
+	ctx := fmt.Sprintf("type %s\n  v = %s", typeStr(c.T), show(c.V.V))
 	var orig, clone *vv.Value
 	if p := guard(func() {
 		orig = hostkit.ToVM(c.V.V)
@@ -788,83 +821,42 @@ func jsonScope(t hs.Type) (bool, string) {
 	return true, ""
 }
 
-// jsonEq compares the round-tripped value with the original. Inside an any-object the values
-// have no static type to parse under, so there (and only there) 3.0 ~ 3, null ~ none and
-// object ~ any-object are tolerated; such cases are reported as doubt, not asserted.
-func jsonEq(want, got hs.Value, inAny bool) bool {
-	if want == nil || got == nil {
-		return want == nil && got == nil
-	}
-	if inAny {
-		wn, wIsNum := num(want)
-		gn, gIsNum := num(got)
-		if wIsNum && gIsNum {
-			wi, wInt := want.(hs.IntV)
-			gi, gInt := got.(hs.IntV)
-			if wInt && gInt {
-				return wi == gi
-			}
-			return wn == gn
-		}
-		if isNullish(want) && isNullish(got) {
-			return true
-		}
-	}
-	switch w := want.(type) {
-	case *hs.ListV:
-		g, ok := got.(*hs.ListV)
-		if !ok || len(g.Elems) != len(w.Elems) {
-			return false
-		}
-		for i := range w.Elems {
-			if !jsonEq(w.Elems[i], g.Elems[i], inAny) {
-				return false
-			}
-		}
-		return true
-	case *hs.ObjV:
-		g, ok := got.(*hs.ObjV)
-		if !ok || len(g.M) != len(w.M) {
-			return false
-		}
-		if !inAny && g.Any != w.Any {
-			return false
-		}
-		for k, wv := range w.M {
-			gv, ok := g.M[k]
-			if !ok || !jsonEq(wv, gv, inAny || w.Any) {
-				return false
-			}
-		}
-		return true
-	case hs.OptV:
-		g, ok := got.(hs.OptV)
-		if !ok {
-			return false
-		}
-		return jsonEq(w.Inner, g.Inner, inAny)
-	}
-	return want.Kind() == got.Kind() && hs.Equal(want, got)
-}
-
-func num(v hs.Value) (float64, bool) {
+// canonJSON: inside an any-object the values have no static type to parse under, so there (and
+// only there) 3.0 ~ 3, null ~ none and object ~ any-object are identified before comparing; when
+// only this identification makes a round trip succeed the case is counted as doubt.
+func canonJSON(v hs.Value, inAny bool) hs.Value {
 	switch x := v.(type) {
-	case hs.IntV:
-		return float64(x), true
 	case hs.FloatV:
-		return float64(x), true
+		f := float64(x)
+		if inAny && f == math.Trunc(f) && math.Abs(f) < 9.2e18 {
+			return hs.IntV(int64(f))
+		}
+	case hs.NullV:
+		if inAny {
+			return hs.OptV{}
+		}
+	case *hs.ListV:
+		c := &hs.ListV{}
+		for _, e := range x.Elems {
+			c.Elems = append(c.Elems, canonJSON(e, inAny))
+		}
+		return c
+	case *hs.ObjV:
+		c := hs.NewObj(x.Any || inAny)
+		for _, k := range x.SortedKeys() {
+			c.Set(k, canonJSON(x.M[k], inAny || x.Any))
+		}
+		return c
+	case hs.OptV:
+		if x.Inner != nil {
+			return hs.OptV{Inner: canonJSON(x.Inner, inAny)}
+		}
 	}
-	return 0, false
+	return v
 }
 
-func isNullish(v hs.Value) bool {
-	switch x := v.(type) {
-	case hs.NullV:
-		return true
-	case hs.OptV:
-		return x.Inner == nil
-	}
-	return false
+func jsonEq(want, got hs.Value) bool {
+	return want != nil && got != nil && hs.Equal(canonJSON(want, false), canonJSON(got, false))
 }
 
 func strictEq(want, got hs.Value) bool {
@@ -910,7 +902,7 @@ func sameFlavour(a, b hs.Value) bool {
 }
 
 var (
-	quotedRe = regexp.MustCompile("['`][^'`]*['`]")
+	quotedRe  = regexp.MustCompile("['`][^'`]*['`]")
 	kindWords = map[string]bool{"int": true, "float": true, "bool": true, "string": true, "str": true, "null": true, "list": true, "object": true,
 		"any-object": true, "option": true, "range": true}
 	digitsRe = regexp.MustCompile(`[0-9]+`)
@@ -1139,13 +1131,14 @@ func hasToJSON(v hs.Value) bool {
 func checkJSON(c JSONCase) *pk.Failure {
 	v := c.V.V
 	if v == nil || !hs.Conforms(v, c.T) {
-		return pk.Failf("json", "bad-case", "value %s does not conform to %#v", show(v), c.T)
+		return pk.Failf("json", "bad-case", "value %s does not conform to %s", show(v), typeStr(c.T))
 	}
 	if ok, why := jsonScope(c.T); !ok {
-		return pk.Failf("json", "bad-case", "type outside the JSON scope (%s): %#v", why, c.T)
+		return pk.Failf("json", "bad-case", "type outside the JSON scope (%s): %s", why, typeStr(c.T))
 	}
-	ctx := fmt.Sprintf("type %s (%#v)\n  v = %s", c.T.Canon(), c.T, show(v))
+	ctx := fmt.Sprintf("type %s\n  v = %s", typeStr(c.T), show(v))
 	texts := map[string]string{}
+	var fails []*pk.Failure
 	for _, r := range jsonRoutes {
 		if strings.HasSuffix(r.name, "-builtin") && !hasToJSON(v) {
 			continue // only lists, objects and any-objects have to_json
@@ -1153,14 +1146,21 @@ func checkJSON(c JSONCase) *pk.Failure {
 		var got hs.Value
 		var text, em string
 		if p := guard(func() { got, text, em = r.run(v, c.T) }); p != "" {
-			return pk.Failf("json", "panic:json:"+r.name+":"+jsonFeature(v), "[%s] panicked: %s\n%s", r.name, msgLine(p), ctx)
+			fails = append(fails, pk.Failf("json", "panic:json:"+r.name+":"+msgClass(p), "[%s] panicked: %s\n%s", r.name, msgLine(p), ctx))
+			continue
 		}
 		if em != "" {
-			return pk.Failf("json", "json-error:"+r.name+":"+msgClass(em), "[%s] %s\n  json = %s\n%s", r.name, em, text, ctx)
+			fails = append(fails, pk.Failf("json", "json-error:"+r.name+":"+msgClass(em), "[%s] %s\n  json = %s\n%s", r.name, em, text, ctx))
+			continue
 		}
 		texts[r.name] = text
-		if !jsonEq(v, got, false) {
-			return pk.Failf("json", "json-roundtrip:"+r.name+":"+jsonFeature(v)+":"+pairClass(v, got), "[%s] round trip changed the value: got %s\n  json = %s\n%s", r.name, show(got), text, ctx)
+		if !jsonEq(v, got) {
+			cls := diffClass(canonJSON(v, false), canonJSON(got, false))
+			if !strings.HasPrefix(cls, "kind:") {
+				cls += ":" + jsonFeature(v)
+			}
+			fails = append(fails, pk.Failf("json", "json-roundtrip:"+r.name+":"+cls, "[%s] round trip changed the value: got %s\n  json = %s\n%s", r.name, show(got), text, ctx))
+			continue
 		}
 		if !strictEq(v, got) {
 			pk.Class("doubt:json-anyobj-untyped-content")
@@ -1173,11 +1173,12 @@ func checkJSON(c JSONCase) *pk.Failure {
 		da.UseNumber()
 		db.UseNumber()
 		if da.Decode(&x) != nil || db.Decode(&y) != nil || !sameJSON(x, y) {
-			return pk.Failf("json", "json-text-differs:"+jsonFeature(v), "to_json differs between the libraries:\n  vm   = %s\n  tree = %s\n%s", a, b, ctx)
+			fails = append(fails, pk.Failf("json", "json-text-differs:"+jsonFeature(v), "to_json differs between the libraries:\n  vm   = %s\n  tree = %s\n%s", a, b, ctx))
+		} else {
+			pk.Class("doubt:json-text-lexical-difference")
 		}
-		pk.Class("doubt:json-text-lexical-difference")
 	}
-	return nil
+	return pick(fails)
 }
 
 func msgLine(s string) string {
